@@ -183,7 +183,7 @@ def shards(tier):
     for p in range(parts):
         out.append({'mode': 'pairs', 'part': p, 'parts': parts})
     for _ in range(10 if quick else 58):
-        out.append({'mode': 'gen', 'examples': 250 if quick else 1500})
+        out.append({'mode': 'gen', 'examples': 500 if quick else 3000})
     return out
 
 
